@@ -260,7 +260,7 @@ func Check(file []byte, exp Expect) (errs []string) {
 			if md.Type != leaf.Type {
 				bad("row group %d column %s: chunk type %v, schema type %v", gi, name, md.Type, leaf.Type)
 			}
-			if md.Codec != exp.Codec {
+			if exp.Codec >= 0 && md.Codec != exp.Codec {
 				bad("row group %d column %s: codec %v recorded, %v configured", gi, name, md.Codec, exp.Codec)
 			}
 			if col.FileOffset != off || md.DataPageOffset != off {
